@@ -6,27 +6,66 @@ hook_commits = subprocess.run(["git", "-C", "/repo", "log", "--format=%H %s"], c
 hook_commits = [l.split()[0] for l in hook_commits if " verif hooks" in l]
 
 CHECKS = {
- "C01": ("exploration", "4 C01", "reference-model oracle after every op + hooked structural invariants + checkptr/ASan builds, random histories",
+ "C01": ("exploration", "4 C01", "reference-model oracle after every op + hooked structural invariants + checkptr/ASan builds, random hostile histories",
          "Held on the executions observed: every alive entity's Has/Mask/Ids/Get and component bytes equal the model after every op of thousands of hostile histories, via World.* and via a full query sweep, in the default and tiny builds and under checkptr (ASan in thorough).",
-         "Trusts the harness model (200 lines) and the unique-byte-pattern encoding; populations <= ~60 entities, <= 12 types in use per history."),
+         "Trusts the harness model and the unique-byte-pattern encoding; populations <= ~60 entities, <= 12 types in use per history."),
  "C02": ("exploration", "4 C02", "handle ledger checked after every op (trace monitor) + hooked free-list invariant",
          "Held on the executions observed: every handle ever issued in an epoch is asked Alive after every op; freshness, id uniqueness, zero entity and conservation are asserted.",
-         "Ledger bounded by history length (<= ~2000 handles); generation wrap-around out of reach."),
+         "Ledger bounded by history length; generation wrap-around out of reach."),
  "C03": ("exploration", "4 C03", "four-traversal query oracle against an independent filter evaluator over the reference model",
          "Held on the executions observed: for harness-owned filter expressions the four traversals agree with each other, with the model's evaluator and with World.* at every position; returned queries of Q batch calls included.",
          "Trusts the harness filter evaluator; relation filters are don't-care on entities without a relation component."),
+ "C04": ("exploration", "4 C04", "set-model oracle over all ID pairs (enumerated) and sampled masks; harness filter evaluator vs Matches",
+         "All 65,536 (4,096) ordered ID pairs are enumerated completely for every mask operation in every tier; general masks and filter expressions are sampled.",
+         "Masks beyond the pair structure and filter expressions are sampled, not enumerated."),
  "C05": ("exploration", "4 C05", "reference-model oracle for targets + per-target relation-filter queries after every op + illegal-target fault injection",
-         "Held on the executions observed: Relations.Get/Query.Relation and relation-filter queries for every target ever used agree with the model after every op; dead/recycled targets are rejected by every target-taking entry point exercised.",
-         "Trusts the harness model; see C10 for the fault table."),
+         "Held on the executions observed: Relations.Get/Query.Relation and relation-filter queries for every target ever used agree with the model after every op; dead/recycled targets are rejected by every target-taking entry point (fault rows target.dead.*).",
+         "Trusts the harness model; generic entry points are covered by C18's differential check."),
  "C06": ("exploration", "4 C06", "reference model + hooked invariants (retired tables empty/zeroed, free lists) + per-target queries under target-death workloads",
          "Held on the executions observed: target deaths in all three retirement triggers, self-targets and same-batch parent/children removals never panic, never change bystanders, and reused tables start empty and zeroed.",
          "Hook file is trusted to read the structures correctly."),
- "C07": ("exploration", "4 C07", "differential shadow comparator: registered filter vs original filter after every op, plus hooked cache invariant",
-         "Held on the executions observed: every live registration yields the same multiset as its original filter after every op, across target deaths, table recycling and Resets; batch ops through cached filters equal the model.",
+ "C07": ("exploration", "4 C07", "differential: registered vs original filter after every op (shadow comparator), prefix-replayed twin world for batch ops, hooked cache invariant",
+         "Held on the executions observed: every live registration yields the same multiset as its original filter after every op, across target deaths, table recycling and Resets; batch ops through the cached and the original form leave equal worlds.",
          "Compares arche with arche and with the harness model."),
+ "C08": ("exploration", "4 C08", "differential: batch call vs loop of single calls on a prefix-replayed twin world, plus reference model",
+         "Held on the executions observed: for every batch method the batch call and the documented single calls leave equal worlds, counts, Q-query contents and (for creation) handle sequences.",
+         "An empty batch exchange may return 0 (documented as 'affected entities')."),
+ "C09": ("fault_enumeration", "4 C09", "lock ledger (trace monitor) + enumeration of every structural entry point x lock source x release path with before/after snapshots",
+         "Every row of the entry-point table (36 ID-based rows) is exercised in every run under every lock source (plain, cached, batch-result, nested up to the limit, removal callback) and must panic leaving public snapshot + hidden digest unchanged; the lock ledger is compared after every open/release; world states are sampled.",
+         "World states at which locks are taken are sampled; generic entry points route through the same core functions and are exercised by C18."),
+ "C10": ("fault_enumeration", "4 C10", "fault table of illegal-argument classes x operations injected at sampled states, with full before/after snapshot equality for single-entity operations",
+         "Every row of the fault table (88 rows + 4 batch-query probes) is exercised in every run; each call must panic; single-entity failures must leave the public snapshot, the hidden core digest and the invariants unchanged, and the history continues under the model.",
+         "World states are sampled; batch operations are only required to panic."),
  "C11": ("exploration", "4 C11", "offline trace checker over the recorded listener event stream against the model's per-entity before/after diff",
-         "Held on the executions observed: exactly one truthful event per changed entity, none otherwise, with the documented delivery timing; replaying the stream reproduces masks and targets.",
+         "Held on the executions observed: exactly one truthful event per changed entity, none otherwise, with the documented delivery timing for single, batch and Q-variant operations.",
          "Reset and LoadEntities are epoch boundaries (no events are specified for them)."),
+ "C12": ("exploration", "4 C12", "differential: restricted listener / Dispatch sub-listener on a replayed twin world vs the selection rule applied to the full recorded stream",
+         "All 64 subscription masks are run against every history; each restricted listener and each Dispatch sub-listener (incl. late additions, nested Dispatch) receives exactly the rule-selected subsequence, per op, in order.",
+         "The selection rule is implemented once in the harness from the documentation."),
+ "C13": ("exploration", "4 C13", "differential transcripts: second world with forced GC / churn goroutine in-process, and across separate processes (GOMAXPROCS 1 vs 16, second toolchain)",
+         "Held on the executions observed: per-op transcripts (handles, iteration order, events, counts, dumps) are identical between two worlds and between processes with different hash seeds and scheduling.",
+         "GC timing and map seeding are sampled, not enumerated."),
+ "C14": ("exploration", "4 C14", "canary objects with checksums and finalizers under forced GC with GODEBUG=clobberfree (r1), concurrent collector with gccheckmark on typed paths (r2), runtime's own heap checks; r3 reproduces known finding",
+         "Held on the executions observed in regimes r1 and r2: no canary referenced by a live component is damaged or finalized; canaries only reachable from removed rows are collected (exact accounting). Regime r3 (concurrent marking x raw-copy paths) is a recorded known finding and never decides the verdict.",
+         "r1 cannot see barrier defects by construction; GC schedules are sampled. KF-C14-barrier stands."),
+ "C15": ("exploration", "4 C15", "differential: reset world vs fresh world given the same registrations and the same post-reset history",
+         "Held on the executions observed: after Reset no entity/resource/lock remains; handles, counts, Q-query contents, event multisets, entity state and registered-filter results equal those of a fresh world, over up to 6 reset cycles.",
+         "Batch removals of more than one entity are excluded from the twin phase (their recycling order follows iteration order, which the property leaves open)."),
+ "C16": ("exploration", "4 C16", "registration-log oracle for every registry size 0..limit + model-checked mini-history on boundary IDs + hooked layout invariants + checkptr/ASan",
+         "Every number of registered types from 0 to the limit is run in every tier for both registries; IDs are stable, dense and consistently reported; the relation flag follows the type shape; the highest IDs are usable on old and new tables; limit+1 and registration while locked are rejected without effect.",
+         "Interleavings of registration and table creation are sampled."),
+ "C17": ("exploration", "4 C17", "differential: dumped world vs loaded world (fresh or reset, any capacity increment), JSON round trips",
+         "Held on the executions observed: same Alive answers for every handle ever issued, identical dump after load, identical future handle sequence, handles unchanged by JSON, load refused on used worlds.",
+         "Continuations use creation/removal operations only (loaded entities have no components)."),
+ "C18": ("exploration", "4 C18", "differential: generic call on world G vs documented ID-based call on lock-step twin K, plus model and per-position pointer comparison",
+         "Held on the executions observed: for arities 0-12 (two instantiations each) generic calls equal their ID-based equivalents in handles, counts, Q-query contents, events and state; QueryN.Get/MapN.Get return the declared component per position; FilterN selections equal the composed core filter for random builder-call orders before and between queries, registered or not.",
+         "Optional together with Exclusive is don't-care; type parameters are G0..G(N-1) / RelA,G1.. at shuffled IDs."),
+ "C19": ("exploration", "4 C19", "Go race detector over concurrently driven worlds + solo-vs-concurrent transcript comparison",
+         "Held on the executions observed: no race report and no cross-talk with 8 (32) goroutines each driving its own worlds through full-mix histories that reach every op kind from at least two goroutines.",
+         "The race detector only sees code paths that two goroutines actually reach."),
+ "C20": ("exploration", "4 C20", "map-model oracle for resources by exact pointer through all three access paths after every step, with strict add/remove faults",
+         "Held on the executions observed: Has/Get through Resources, generic.Resource and GetResource equal the model after every step, independent of entity operations, locks and other resource types; strict add/remove panic without effect; Reset clears.",
+         "Generic access covers the 14 static types; other resource types go through the ID-based path."),
 }
 
 ALL = ["C%02d" % i for i in range(1, 21)]
@@ -46,7 +85,7 @@ for pid in ALL:
         "level_note": note,
         "technique": tech,
     })
-na = [{"property_id": p, "reason": "check under construction in this session; will be claimed once its monitor is built and validated"} for p in ALL if p not in CHECKS]
+na = [{"property_id": p, "reason": "not claimed"} for p in ALL if p not in CHECKS]
 manifest = {
     "version": 1,
     "setup_cmd": "cd /verif/harness && cp /repo/go.sum . && env GOFLAGS=-mod=mod GOPROXY=off GOSUMDB=off GOTOOLCHAIN=local GOWORK=off go build -o /verif/bin/verif ./cmd/verif && /verif/bin/verif build",
